@@ -149,6 +149,13 @@ KANI_UNITS["ov_pipes"] = {
                 r"vk_slow": "one key in a real std HashMap with a constant hasher; <= 2 finalize calls"},
 }
 
+KANI_UNITS["ov_join"] = {
+    "mode": "overlay", "crate": "contracts/kani/ov_join", "package": "dfir_pipes", "prefix": "dfir_pipes/src", "props": ["C13"],
+    "what": "the real HalfSetJoinState / HalfMultisetJoinState (FxHashMap + SmallVec + VecDeque) with ONE built pair, concrete keys, symbolic values",
+    "instantiation": "Key = ValBuild = ValProbe = u8",
+    "bounded": {r".*": "one built pair (hashbrown is within CBMC's reach for a single entry only)"},
+}
+
 KANI_UNITS["ov_sink"] = {
     "mode": "overlay", "crate": "contracts/kani/ov_sink", "package": "sinktools", "prefix": "sinktools/src", "props": ["C14"],
     "what": "sinktools compiled in place; harness child modules appended to each adaptor's file; havoc downstream sinks (incl. errors)",
@@ -239,7 +246,8 @@ PROPS["C14"] = [("kani", "ov_sink", ["vk_harness"], ("quick", "thorough"))]
 
 # C16 NOT registered (tool limit, DESIGN.md section 11): vk_mpsc kept for the record
 
-PROPS["C13"] = [("kani", "ov_pipes", ["symmetric_hash_join"], ("quick", "thorough"))]
+PROPS["C13"] = [("kani", "ov_pipes", ["symmetric_hash_join"], ("quick", "thorough")),
+                ("kani", "ov_join", ["half_join_state"], ("thorough",))]
 
 # C17 NOT registered: see mkmanifest NOT_APPLICABLE (vk_uf kept for reference; every harness times out at 1200 s)
 
